@@ -114,6 +114,14 @@ CLAIMS["C18"] = {
     "design_ref": "DESIGN.md §3 C18",
 }
 
+CLAIMS["C12"] = {
+    "category": "fault_enumeration",
+    "technique": "exhaustive single-fault injection over model texts (span-level XML mutator) + sampled fault pairs + character-level corruption, observed through the panic / crash / hang channel of the real loader and evaluator on dbg, rel and an ASan slice",
+    "text": "For each .dmn file shipped under /repo/examples (149, found at run time) and 15 generated DMN 1.3 models, every single structural fault at every position (element: delete / duplicate / empty / swap / delete-all-same-named; attribute: delete / empty / garble; text: empty / garbage / broken FEEL; href: missing id, own DRG element, every transitive requirer, XML ancestor, element of another kind; typeRef: missing, other simple type, own / ancestor / referencing item definition) - 177k faults in 1140 fault-kind x element-kind classes - is applied to the text and pushed through dmntk_model::parse -> ModelEvaluator::new -> evaluate_invocable(every invocable x 5 input contexts incl. wrongly typed ones) on an 8 MiB stack; plus sampled / designed fault pairs, seeded character corruptions and truncations and 21 hostile documents. Thorough runs all single faults on dbg, 20% on rel, 10% under ASan; quick a stride sample of ~7k covering every class. Any panic, process death, confirmed hang (re-run alone, 300 s) or poisoned lock is a violation.",
+    "note": "Oracle is the channel only (values / nulls / errors are never judged). Pairs are sampled, corruption is seeded random. Crash signatures are fault kind x element (pairs attributed to the single fault that suffices, else to the cycle they build); panic signatures carry a hash of the source line at the panic location. Mutants of the shipped N_0088.dmn, which crashes unmodified, inherit its signature.",
+    "design_ref": "DESIGN.md §3 C12",
+}
+
 NOT_YET = "check not built yet in this round (work in progress; see DESIGN.md for the planned monitor)"
 
 
